@@ -204,6 +204,9 @@ def groups(tier, seed):
             for order in ('ab', 'ba'):
                 for mode in ('', 'dfs'):
                     yield {'kind': 'two-roots', 'fa': fa, 'fb': fb, 'order': order, 'mode': mode, 'layer': 'two-roots'}
+    # one root that follows links and one that does not, where the one reaches into the other (each root is searched under its own option)
+    for mode in ('', 'dfs'):
+        yield {'kind': 'mixed-roots', 'mode': mode, 'layer': 'mixed-roots'}
     yield from link_history_groups()
 
 
@@ -228,6 +231,8 @@ def single(case):
         return {k: case[k] for k in ('kind', 'fa', 'fb', 'order', 'mode', 'layer')}
     if case.get('kind') == 'odd-names':
         return {k: case[k] for k in ('kind', 'mode', 'rd', 'layer')}
+    if case.get('kind') == 'mixed-roots':
+        return {'kind': 'mixed-roots', 'mode': case['mode'], 'layer': 'mixed-roots', 'only': case['argv']}
     return {'tree': case['tree'], 'layer': case.get('layer'), 'only': case['cfg']}
 
 
@@ -274,6 +279,42 @@ def model(troot, follow, maxdepth):
                 visited.add(tgt)
                 queue.append((tgt, lvl + 1))
     return rows, all(v == 1 for v in routes.values())
+
+
+def eval_mixed_roots(env, group):
+    holder = env.newdir('c18m')
+    core.materialise(holder, {'m': D({'a': D({'fa': F(1), 'lnk': L('../b/sub')}), 'b': D({'g1': F(1), 'sub': D({'s1': F(1), 's2': F(1)})})}),
+                              'n': D({'d': D({'f': F(1), 'sub': D({'l': L('../../ext'), 's': F(1)})}), 'ext': D({'e1': F(1), 'e2': F(1)})})})
+    cases = [('m/a symlinks, m/b', ['m/a/fa', 'm/a/lnk', 'm/a/lnk/s1', 'm/a/lnk/s2', 'm/b/g1', 'm/b/sub', 'm/b/sub/s1', 'm/b/sub/s2']),
+             ('m/b, m/a symlinks', ['m/a/fa', 'm/a/lnk', 'm/a/lnk/s1', 'm/a/lnk/s2', 'm/b/g1', 'm/b/sub', 'm/b/sub/s1', 'm/b/sub/s2']),
+             ('m/a symlinks depth 1, m/b', ['m/a/fa', 'm/a/lnk', 'm/b/g1', 'm/b/sub', 'm/b/sub/s1', 'm/b/sub/s2']),
+             ('n/d, n/d/sub symlinks', ['n/d/f', 'n/d/sub', 'n/d/sub/l', 'n/d/sub/s', 'n/d/sub/l', 'n/d/sub/s', 'n/d/sub/l/e1', 'n/d/sub/l/e2']),
+             ('n/d depth 1, n/d/sub symlinks', ['n/d/f', 'n/d/sub', 'n/d/sub/l', 'n/d/sub/s', 'n/d/sub/l/e1', 'n/d/sub/l/e2']),
+             ('n/d, n/ext symlinks', ['n/d/f', 'n/d/sub', 'n/d/sub/l', 'n/d/sub/s', 'n/ext/e1', 'n/ext/e2'])]
+    outs = []
+    try:
+        for frm, exp in cases:
+            frm2 = ', '.join(r_ + (' ' + group['mode'] if group['mode'] else '') for r_ in frm.split(', '))
+            q = ['path from %s into list' % frm2]
+            if group.get('only') is not None and group['only'] != q:
+                continue
+            o = env.run(q, cwd=holder, timeout=10.0)
+            r_ = {'case': dict({k_: v_ for k_, v_ in group.items() if k_ != 'only'}, argv=q), 'layer': 'mixed-roots', 'nt': True, 'trans': len(exp) + 1}
+            got = sorted(o.rows())
+            if o.timeout:
+                r_.update(status='viol', cls='no-termination', detail=dict(o.brief(), argv=q), sig=('hang',))
+            elif got != sorted(exp):
+                missing = [x for x in exp if exp.count(x) > got.count(x)]
+                r_.update(status='viol', cls='mixed-roots:rows-missing' if missing else 'mixed-roots:rows-extra', sig=('rows', frm),
+                          detail={'argv': q, 'missing': sorted(set(missing)), 'extra': sorted(set(x for x in got if got.count(x) > exp.count(x)))})
+            elif o.rc != 0 or o.err:
+                r_.update(status='viol', cls='status-or-stderr-with-nothing-unreadable', detail=dict(o.brief(), argv=q), sig=('rc', o.rc))
+            else:
+                r_.update(status='ok', sig=tuple(got))
+            outs.append(r_)
+    finally:
+        env.rmtree(holder)
+    return outs
 
 
 def eval_two_roots(env, group):
@@ -452,6 +493,8 @@ def eval_link_history(env, group):
 
 
 def eval_group(env, group, tier):
+    if group.get('kind') == 'mixed-roots':
+        return eval_mixed_roots(env, group)
     if group.get('kind') == 'link-history':
         return eval_link_history(env, group)
     if group.get('kind') == 'two-roots':
